@@ -243,7 +243,7 @@ impl GraphStore {
             }
         }
         let ghost mid = *self;
-//@before "Ok(true)"
+//@atend
         proof {
             assert forall|l: Label, n: NodeId| #[trigger] self.listed(l, n) <==> (self.newest(n) matches Some(v) && v.labels@.contains(l)) by {
                 assert(old(self).listed(l, n) <==> (old(self).newest(n) matches Some(v) && v.labels@.contains(l)));
@@ -277,7 +277,7 @@ impl GraphStore {
             }
         }
         let ghost mid = *self;
-//@before "Ok(())"
+//@atend
         proof {
             assert forall|l: Label, n: NodeId| #[trigger] self.listed(l, n) <==> (self.newest(n) matches Some(v) && v.labels@.contains(l)) by {
                 assert(old(self).listed(l, n) <==> (old(self).newest(n) matches Some(v) && v.labels@.contains(l)));
